@@ -66,6 +66,7 @@ Consume ==
                 [] OTHER -> UNCHANGED vars /\ bad' = "the server sent a frame the echo loop never sends"
          [] e.ev = "CRecv" -> Take(CRecvG /\ Head(s2c) = e.f, CRecv, "the client took a frame that is not the head of the channel")
          [] e.ev = "end" -> UNCHANGED vars /\ bad' = IF cdone /\ sdone /\ c2s = <<>> /\ s2c = <<>> THEN "" ELSE "the session ended before the closing handshake was complete"
+         [] e.ev = "failed" -> UNCHANGED vars /\ bad' = "the connection broke down (an endpoint reported an error or the byte stream is not a frame stream)"
          [] OTHER -> UNCHANGED vars /\ bad' = "unknown event"
     /\ l' = l + 1 /\ UNCHANGED rej
 
